@@ -234,9 +234,9 @@ func executeConfig(env *kernel.Env, c *cfgParams, out *kernel.Outcome) {
 		gl.Dir = realRoot
 		gl.Env = envv
 		if lb, lerr := gl.CombinedOutput(); lerr != nil {
-			first, _, _ := strings.Cut(strings.TrimSpace(string(lb)), "\n")
+			_ = lb
 			out.Probe("config_layout_refused_by_go_list")
-			out.Keys = append(out.Keys, "config-void|"+first)
+			out.Keys = append(out.Keys, fmt.Sprintf("config-void|%s|%v", pk.Dir, pk.Files))
 			return
 		}
 	}
